@@ -242,7 +242,7 @@ def check(name, sk, d, slot, v, exempt, args):
     q = build(sk, d, V)[0]
     psql, vals = render_param(q, d)
     note("psql", psql)
-    note("values", repr(vals))
+    note("values", list(vals))  # (no repr here: repr() of a symbolic value forks per character class)
     note("isql_probe", isql_p)
     ok = True
     why = ""
@@ -398,7 +398,7 @@ def c04_inline_equiv(sk: int, d: int, s: str) -> int:
     q = build_short(sk, d, s)
     psql, vals, isql = render_pair(q, d)
     note("psql", psql)
-    note("values", repr(vals))
+    note("values", list(vals))  # (no repr here: repr() of a symbolic value forks per character class)
     note("isql", isql)
     kstar = None
     for i in range(len(vals)):
